@@ -606,4 +606,53 @@ theorem parse_com_query_eq (E : Env Str) (caps cs : Nat) (valid : List Nat) (hv 
   · simp only [hq, Bool.false_eq_true, if_false]
     cases E.decode cs data <;> rfl
 
+/-! ### `_read_connect_attrs` -/
+
+/-- **the `while total_l > 0` loop of `_read_connect_attrs` finishes within the translator's fuel** (one more than the
+    number of unread bytes) for every claimed total length, every input and every codec: each round consumes at least
+    two bytes -/
+theorem connect_attrs_loop_terminates {S : Type} [DecidableEq S] (E : Env S) (cs : Nat) (n : Nat) :
+    ∀ (r : Bytes), r.length = n → ∀ (d : List (S × S)) (total : Int) (fuel : Nat), n < fuel →
+      Mimic.Py.loopM fuel (d, total, r) (read_connect_attrs_loop1 E cs) ≠ none := by
+  induction n using Nat.strongRecOn with
+  | _ n ih =>
+    intro r hn d total fuel hf
+    cases fuel with
+    | zero => omega
+    | succ fuel =>
+      simp only [Mimic.Py.loopM, read_connect_attrs_loop1, read_str_len_eq]
+      by_cases ht : total > Int.ofNat 0
+      · simp only [ht, decide_true, if_true]
+        cases hk : Mimic.Wire.decStr r with
+        | none => simp
+        | some p =>
+          obtain ⟨k, r5⟩ := p
+          simp only
+          cases hv : Mimic.Wire.decStr r5 with
+          | none => simp
+          | some q =>
+            obtain ⟨v, r7⟩ := q
+            simp only
+            have l1 := Mimic.Packets.decStr_shorter r k r5 hk
+            have l2 := Mimic.Packets.decStr_shorter r5 v r7 hv
+            cases E.decode cs k with
+            | none => simp
+            | some tk =>
+              simp only
+              cases E.decode cs v with
+              | none => simp
+              | some tv =>
+                simp only
+                exact ih r7.length (by omega) r7 rfl _ _ fuel (by omega)
+      · have ht' : ¬ (0 < total) := ht
+        simp [ht']
+
+/-- a concrete environment for the non-vacuity examples: ASCII codec, every collation id is its own character set -/
+def asciiEnv : Env (List Char) where
+  collation := fun n => some n
+  decode := fun _ b => some (b.map (fun x => Char.ofNat x.toNat))
+  encode := fun _ s => some (s.map (fun c => UInt8.ofNat c.toNat))
+  empty := []
+  validType := fun n => [0,1,2,3,4,5,6,7,8,9,10,11,12,13,15,16,245,246,247,248,249,250,251,252,253,254,255,244].contains n
+
 end MimicProofs.ParsersCode
